@@ -2,7 +2,9 @@
    Property theorems only: each closed by [exact] of a lemma from Proofs/, followed by Print Assumptions.
    kind_ladder / handlers / decorator tables / kind_map are Gen/C17_tables.v, regenerated from /repo on every run. *)
 From Coq Require Import List ZArith String Bool Arith.
-From Verif Require Import Lib.Sexp Model.C02_params Proofs.C02_params Model.C17_base Gen.C17_tables Model.C17_agents Proofs.C17_agents.
+From Verif Require Import Lib.Sexp Model.C02_kinds Model.C02_params Proofs.C02_params Model.C17_base Gen.C17_tables Model.C17_agents Proofs.C17_agents
+  Model.C17_bases Proofs.C17_bases.
+From Verif Require Model.C04_scope.
 Import ListNotations.
 Open Scope string_scope. Open Scope list_scope. Open Scope nat_scope.
 
@@ -144,3 +146,66 @@ Theorem C17_pick_member_none_in_submodule :
   forall n k, pick_member (mkPick n false false false true k true) = negb (mem_str n exclude_specials).
 Proof. exact pick_member_none_in_submodule. Qed.
 Print Assumptions C17_pick_member_none_in_submodule.
+
+(* ---- base classes.  For every class definition, in any nesting of class bodies inside a module, with any number of
+   written bases `Name`, `Name[...]`, `root.attr[...]`: if every head is well bound (a class defined in an enclosing
+   scope; a class imported through a re-export chain of any length that CPython executes; a name imported from outside
+   the package, e.g. typing.Generic; a builtin) and class creation keeps the written bases (gap F8: `rewrites`), the
+   Visitor's resolved base paths and the Inspector's are the same list (builtins without their module, object left
+   out), and the Inspector's list is CPython's __bases__ without object. *)
+Theorem C17_bases_agree :
+  forall sc (bs : list (bexpr * bval)) rb,
+  Forall (fun bv => well_bound sc (fst bv) (snd bv)) bs ->
+  cpython_bases (map (fun bv => eval_base (fst bv) (snd bv)) bs) = Some rb ->
+  rewrites (map (fun bv => eval_base (fst bv) (snd bv)) bs) = false ->
+  norm_bases (static_bases sc (map fst bs)) = norm_bases (inspector_bases rb) /\
+  inspector_bases rb = map join_dot (filter (fun p => negb (path_eqb p builtins_object)) rb).
+Proof. exact bases_agree_well_bound. Qed.
+Print Assumptions C17_bases_agree.
+
+(* classes, C[...] of user generics, list[int], Protocol[T], and Generic[T] unless Protocol is a base or a generic
+   alias follows it: class creation keeps the written bases, whatever the number of bases *)
+Theorem C17_bases_kept_when_safe :
+  forall vs, all_safe vs vs = true -> rewrites vs = false.
+Proof. exact no_rewrite_when_safe. Qed.
+Print Assumptions C17_bases_kept_when_safe.
+
+(* F8 witnesses: `class L(List[int])`, `class K(Generic[T], G[T])` *)
+Theorem C17_bases_refuted_typing_alias :
+  let vs := [eval_base (BxSub (BxName "List")) (VTypingAlias ["typing"; "List"] ["builtins"; "list"])] in
+  rewrites vs = true /\ cpython_bases vs = Some [["builtins"; "list"]; typing_generic].
+Proof. exact rewrites_typing_alias. Qed.
+Print Assumptions C17_bases_refuted_typing_alias.
+
+Theorem C17_bases_refuted_generic_dropped :
+  let vs := [eval_base (BxSub (BxName "Generic")) (VClass typing_generic true);
+             eval_base (BxSub (BxName "G")) (VClass ["m"; "G"] true)] in
+  rewrites vs = true /\ cpython_bases vs = Some [["m"; "G"]].
+Proof. exact rewrites_generic_dropped. Qed.
+Print Assumptions C17_bases_refuted_generic_dropped.
+
+(* the path the Visitor stores for a base name, per kind of binding (Object.resolve as modelled by C04, then the
+   aliases of the modules collection) *)
+Theorem C17_base_path_of_name :
+  forall sc b n, bhead b = BxName n -> no_own_name sc n = true ->
+  static_base_path sc b =
+  match find_frame sc n with
+  | None => n
+  | Some (SLocal, suffix) => (C04_scope.path_of (c04_chain suffix) ++ "." ++ n)%string
+  | Some (SExt t, _) => join_dot t
+  | Some (SChain c D q, _) =>
+      match static_final c (D ++ [q]) with
+      | Some f => join_dot f
+      | None => match alias_target (SChain c D q) with Some t => join_dot t | None => ""%string end
+      end
+  end.
+Proof. exact static_base_name. Qed.
+Print Assumptions C17_base_path_of_name.
+
+(* ... and that walk finds the binding CPython's scoping finds (C04's theorem, on the scopes of a class statement) *)
+Theorem C17_base_name_is_python_binding :
+  forall sc n,
+  C04_scope.wf_chain (c04_chain sc) = true -> C04_scope.gap_class (c04_chain sc) n = false ->
+  C04_scope.resolve (c04_chain sc) n = C04_scope.py_lookup (c04_chain sc) n.
+Proof. exact base_name_python_binding. Qed.
+Print Assumptions C17_base_name_is_python_binding.
